@@ -2,6 +2,7 @@ package decoder
 
 import (
 	"fmt"
+	"math"
 	"reflect"
 	"unsafe"
 
@@ -224,6 +225,10 @@ func (d *intDecoder) DecodeStream(s *Stream, depth int64, p unsafe.Pointer) erro
 		if i64 < -1*(1<<31) || (1<<31) <= i64 {
 			return d.typeError(bytes, s.totalOffset())
 		}
+	case reflect.Int:
+		if i64 < math.MinInt || math.MaxInt < i64 {
+			return d.typeError(bytes, s.totalOffset())
+		}
 	}
 	d.op(p, i64)
 	s.reset()
@@ -255,6 +260,10 @@ func (d *intDecoder) Decode(ctx *RuntimeContext, cursor, depth int64, p unsafe.P
 		}
 	case reflect.Int32:
 		if i64 < -1*(1<<31) || (1<<31) <= i64 {
+			return 0, d.typeError(bytes, cursor)
+		}
+	case reflect.Int:
+		if i64 < math.MinInt || math.MaxInt < i64 {
 			return 0, d.typeError(bytes, cursor)
 		}
 	}
